@@ -261,7 +261,8 @@ impl YieldPoint {
         Self {
             yield_controller: Arc::new(FiberYield::new()),
             operation_count: AtomicUsize::new(0),
-            yield_interval,
+            // an interval of 0 ("yield at every operation") used to panic in `count % yield_interval`
+            yield_interval: yield_interval.max(1),
         }
     }
 
@@ -501,7 +502,7 @@ impl CooperativeUtils {
         for (i, item) in items.into_iter().enumerate() {
             results.push(processor(item)?);
 
-            if i % yield_interval == 0 {
+            if i % yield_interval.max(1) == 0 {
                 yield_point.yield_now().await;
             }
         }
